@@ -1,5 +1,6 @@
 #![allow(dead_code)]
 mod util;
+mod c04;
 mod c09;
 
 fn main() {
@@ -11,6 +12,7 @@ fn main() {
     util::quiet_panics();
     let a = util::Args::parse(&argv[2..]);
     match argv[1].as_str() {
+        "c04" => c04::main(&a),
         "c09" => c09::main(&a),
         other => {
             eprintln!("unknown driver {other}");
